@@ -101,6 +101,17 @@ def mk_tfun(spec):
         return lambda v: s
     if k == "round":
         return lambda v: round(v) if isinstance(v, (int, float)) and not isinstance(v, bool) else v
+    if k == "num":
+        # numbers arriving as numbers on one side and as text on the other: both become the float (not in the Coq
+        # model's function set: cases that use it go to the oracle only)
+        def num(v):
+            if isinstance(v, bool):
+                return v
+            try:
+                return float(v)
+            except (TypeError, ValueError):
+                return v
+        return num
     raise ValueError(spec)
 
 
@@ -175,6 +186,8 @@ def tfun_lit(spec):
         return "(TConstS %s)" % L.pstr(spec[1])
     if k == "round":
         return "TRound"
+    if k == "num":
+        raise L.Unrepresentable("transform function outside the model's set: oracle only")
     raise ValueError(spec)
 
 
